@@ -992,6 +992,17 @@ fn merge_tie(cx: &mut Ctx, label: &str, src: &str, pair: &str, before: &Bytecode
         } else {
             cx.ev.hit("merge:memo-keys-rebound");
         }
+        // the other hypotheses of C10.merge_isRenaming, decided per merge
+        let mut all_hyp = a.contains("keys-distinct=true") && a.contains("src-wf=true");
+        for name in ["dedup", "nil-ok", "out-tuples-nodup", "builtin-types", "stratified"] {
+            if a.contains(&format!("{name}=true")) {
+                cx.ev.hit(&format!("merge:hyp:{name}:holds"));
+            } else {
+                cx.ev.hit(&format!("merge:hyp:{name}:fails"));
+                all_hyp = false;
+            }
+        }
+        cx.ev.hit(if all_hyp { "merge:isRenaming-hypotheses-all-hold" } else { "merge:isRenaming-hypotheses-some-fail" });
         // hypothesis SrcWf of C10.merge_isRenaming_partial
         if a.contains("src-wf=true") {
             cx.ev.hit("merge:source-well-formed");
